@@ -145,6 +145,107 @@ func runOnce(sc onceScenario) (what string, checks int) {
 	return what, checks
 }
 
+// onceWide is a scenario with many keys: implementations keep their per-key state in tables that grow (and in
+// striped or shared locks whose collisions only show with enough keys).
+type onceWide struct {
+	// Mode 0: key 0 is under construction while Others keys are requested, constructed and returned, then key 0
+	// finishes. Mode 1: the constructor of key 0 itself requests the Others keys. Mode 2: the constructions of
+	// all Others+1 keys are held at once.
+	Mode   int `json:"mode"`
+	Others int `json:"others"`
+}
+
+func runOnceWide(sc onceWide) (what string, checks int) {
+	dl := bubble(func() {
+		gate := make(chan struct{})
+		counts := make([]atomic.Int32, sc.Others+1)
+		var started atomic.Int32
+		var oc *syncutil.OnceConstructor[int, *obj]
+		oc = syncutil.NewOnceConstructor(func(k int) *obj {
+			counts[k].Add(1)
+			started.Add(1)
+			switch {
+			case sc.Mode == 0 && k == 0, sc.Mode == 2:
+				<-gate
+			case sc.Mode == 1 && k == 0:
+				for j := 1; j <= sc.Others; j++ {
+					if o := oc.Get(j); o == nil || o.key != j {
+						what = fmt.Sprintf("Get(%d) called from the constructor of key 0 returned %+v", j, o)
+					}
+				}
+			}
+			return &obj{k, k + 1000}
+		})
+		res := make([]atomic.Pointer[obj], sc.Others+1)
+		ret := make([]atomic.Bool, sc.Others+1)
+		get := func(k int) {
+			go func() {
+				res[k].Store(oc.Get(k))
+				ret[k].Store(true)
+			}()
+		}
+		get(0)
+		synctest.Wait()
+		var waiter atomic.Pointer[obj]
+		var waiterBack atomic.Bool
+		if sc.Mode != 1 {
+			// a second caller of key 0 that waits for the construction in progress
+			go func() { waiter.Store(oc.Get(0)); waiterBack.Store(true) }()
+			synctest.Wait()
+			for k := 1; k <= sc.Others; k++ {
+				get(k)
+			}
+			synctest.Wait()
+			checks++
+			if int(started.Load()) != sc.Others+1 && what == "" {
+				what = fmt.Sprintf("%d of %d constructions have started although every key has a caller (at quiescence)", started.Load(), sc.Others+1)
+			}
+			if sc.Mode == 0 {
+				for k := 1; k <= sc.Others && what == ""; k++ {
+					checks++
+					if !ret[k].Load() {
+						what = fmt.Sprintf("Get(%d) is blocked while only the construction of key 0 is in progress", k)
+					}
+				}
+			}
+			if (ret[0].Load() || waiterBack.Load()) && what == "" {
+				what = "a caller of key 0 returned although its construction has not finished"
+			}
+			close(gate)
+			synctest.Wait()
+		}
+		for k := 0; k <= sc.Others && what == ""; k++ {
+			checks += 2
+			o := res[k].Load()
+			switch {
+			case sc.Mode == 1 && k > 0:
+				o = oc.Get(k) // constructed from inside the constructor of key 0
+				fallthrough
+			default:
+				if (sc.Mode != 1 || k == 0) && !ret[k].Load() {
+					what = fmt.Sprintf("Get(%d) did not return after every construction finished", k)
+				} else if o == nil || o.key != k || o.serial != k+1000 {
+					what = fmt.Sprintf("Get(%d) returned %+v, the constructor returned {%d %d}", k, o, k, k+1000)
+				} else if late := oc.Get(k); late != o {
+					what = fmt.Sprintf("a late Get(%d) returned %+v, the first caller holds %+v", k, late, o)
+				}
+			}
+			if c := counts[k].Load(); c != 1 && what == "" {
+				what = fmt.Sprintf("constructor of key %d ran %d times", k, c)
+			}
+		}
+		if sc.Mode != 1 && what == "" {
+			if o := waiter.Load(); !waiterBack.Load() || o != res[0].Load() {
+				what = fmt.Sprintf("the caller that waited for the construction of key 0 holds %+v, the constructing caller %+v", o, res[0].Load())
+			}
+		}
+	})
+	if dl != "" && what == "" {
+		what = "bubble deadlock: " + dl
+	}
+	return what, checks
+}
+
 func TestOnceBubble(t *testing.T) {
 	r := mon.Start("C17", "once_bubble")
 	var rc onceScenario
@@ -152,7 +253,14 @@ func TestOnceBubble(t *testing.T) {
 		if err != nil {
 			t.Fatal(err)
 		}
-		if w, n := runOnce(rc); w != "" {
+		var wc onceWide
+		if ok2, _ := mon.ReplayCase("once_bubble", &wc); ok2 && wc.Others > 0 {
+			if w, n := runOnceWide(wc); w != "" {
+				r.Violation("replay", w, wc)
+			} else {
+				r.Eval(int64(n))
+			}
+		} else if w, n := runOnce(rc); w != "" {
 			r.Violation("replay", w, rc)
 		} else {
 			r.Eval(int64(n))
@@ -206,6 +314,24 @@ func TestOnceBubble(t *testing.T) {
 			r.Violation(fmt.Sprintf("once-bubble:%v", sc), fmt.Sprintf("OnceConstructor with constructions of keys %v parked and callers arriving for keys %v: %s", sc.Parked, sc.Callers, what), sc)
 		}
 	})
+	// many keys at once
+	var wides []onceWide
+	for mode := 0; mode <= 2; mode++ {
+		for _, others := range []int{1, 7, 8, 15, 16, 17, 31, 32, 33, 63, 64, 65, 70, 130, 300, 1100} {
+			wides = append(wides, onceWide{Mode: mode, Others: others})
+		}
+	}
+	mon.ParallelEach(len(wides), func(w, i int) {
+		set(w, wides[i])
+		what, c := runOnceWide(wides[i])
+		idle(w)
+		r.Eval(int64(c))
+		if what != "" {
+			r.Violation(fmt.Sprintf("once-wide:%v", wides[i]), fmt.Sprintf("OnceConstructor, %s with %d other keys: %s",
+				[]string{"key 0 under construction while the others are requested", "the constructor of key 0 requests the others", "all constructions held at once"}[wides[i].Mode], wides[i].Others, what), wides[i])
+		}
+	})
+	r.Count("wide_scenarios", int64(len(wides)))
 	r.NontrivialN(n)
 	r.Count("scenarios", n)
 	r.Exhaustive(fmt.Sprintf("every arrival order of 1..%d callers over 1..3 keys x every subset of keys whose construction is parked, each judged at bubble quiescence", maxL))
